@@ -468,3 +468,47 @@ mod tests {
         assert!(side.vol_and_orders_at_price(102) == (0, 0));
     }
 }
+
+/// Read-only verification hooks (feature `verif`, off by default)
+#[cfg(feature = "verif")]
+mod verif_hooks {
+    use super::*;
+
+    impl OrderBookSide {
+        fn verif_queue(&self) -> Vec<OrderId> {
+            self.orders.values().copied().collect()
+        }
+
+        fn verif_levels(&self) -> Vec<(Price, Vol, OrderCount)> {
+            self.volumes.iter().map(|(p, v)| (*p, v.0, v.1)).collect()
+        }
+    }
+
+    impl BidSide {
+        /// Ids of resting bids in priority order
+        pub fn verif_queue(&self) -> Vec<OrderId> {
+            self.0.verif_queue()
+        }
+
+        /// (price, volume, order count) per occupied level, best first
+        pub fn verif_levels(&self) -> Vec<(Price, Vol, OrderCount)> {
+            self.0
+                .verif_levels()
+                .into_iter()
+                .map(|(p, v, n)| (Price::MAX - p, v, n))
+                .collect()
+        }
+    }
+
+    impl AskSide {
+        /// Ids of resting asks in priority order
+        pub fn verif_queue(&self) -> Vec<OrderId> {
+            self.0.verif_queue()
+        }
+
+        /// (price, volume, order count) per occupied level, best first
+        pub fn verif_levels(&self) -> Vec<(Price, Vol, OrderCount)> {
+            self.0.verif_levels()
+        }
+    }
+}
